@@ -60,6 +60,22 @@ CHECKS["C07"] = {
     "technique": "property-based testing (rapid) against a table-driven reference model; exhaustive enumeration of a finite sub-product in the thorough tier",
 }
 
+CHECKS["C13"] = {
+    "title": "DANE accepts only a matching TLSA record and fails closed",
+    "go": GO,
+    "units": [
+        {"name": "remote", "pkg": "internal/target/remote",
+         "overlay": {"verif_c13_test.go": "harness/C13/dane_test.go"}},
+    ],
+    "quick": {"n": 40000, "shards": 8},
+    "thorough": {"n": 1600000, "shards": 16},
+    "level_text": "randomised search (rapid) over TLSA record multisets x presented chains x handshake state x lookup outcome against an answer known by "
+                  "construction of the harness's own PKI; the thorough tier also enumerates every multiset of at most two records against every chain.",
+    "level_note": "the oracle never calls x509.Verify or TLSA.Verify; it trusts crypto/x509 only for creating the certificates. "
+                  "'Exhaustive' in the thorough tier is partial: with TLS absent only a few second records are tried because the expected answer cannot depend on them",
+    "technique": "property-based testing (rapid) with a by-construction oracle; exhaustive small-scope enumeration (all multisets of <=2 records)",
+}
+
 # properties deliberately not claimed: {"property_id":..., "reason":...}
 NOT_APPLICABLE = []
 
